@@ -4,6 +4,7 @@ Spec: Layouts/LayoutAbs (Block oracle, rank coordinates per layout), SwapperBoxM
 sampled by TLC, abstract model checked on them), C03Trace.  Conformance: every accepted candidate is driven through
 random histories of LayoutSwapper.transpose on the simulated ranks; every call is validated by C03Trace.
 """
+import itertools
 import random
 import warnings
 
@@ -33,6 +34,9 @@ def build_args(c, int_style):
     if c["g2"]:
         groups.append({lname(o) + "_b": [d - 1 for d in o] for o in c["g2"]})
         nprocs.append(n2 if int_style else [n2])
+    if c.get("g3"):          # a SECOND two-directional group, on the same grid or on the grid with its directions exchanged
+        groups.append({lname(o) + "_c": [d - 1 for d in o] for o in c["g3"]})
+        nprocs.append([n2, n1] if c.get("g3swap") else [n1, n2])
     return groups, nprocs
 
 
@@ -154,6 +158,14 @@ def run(ctx):
         ctx.log("SwapperMC %s: %d states in %.1fs %s" % (what, r.distinct, r.wall, r.violated or "ok"))
         if r.violated:
             ctx.drift_report("Swapper.tla (transcription of the moves between layout groups) violates %s on '%s': %s" % (r.violated, what, (r.trace_text or "")[:600]))
+    # groupings with two two-directional groups (same grid, or directions exchanged): accepted or refused by the constructor
+    perms3 = [list(p) for p in itertools.permutations([1, 2, 3])]
+    for _ in range(24 if quick else 240):
+        n1, n2 = rng.choice([(2, 2), (2, 3), (3, 2), (3, 3), (1, 2), (2, 1)])
+        sh = [rng.randint(max(n1, n2), 6) for _ in range(3)]
+        o0, o3 = rng.choice(perms3), rng.choice(perms3)
+        cands.append({"nd": 3, "sh": sh, "np": [n1, n2], "g0": [o0] + ([rng.choice(perms3)] if rng.random() < 0.3 else []),
+                      "g1": [rng.choice(perms3)] if rng.random() < 0.4 else [], "g2": [], "g3": [o3], "g3swap": rng.random() < 0.5, "two2d": True})
     # the driver's own grouping on several shapes / grids
     for sh in ([4, 5, 6], [5, 7, 6], [6, 6, 6], [3, 9, 4]):
         for n1 in (1, 2, 3):
